@@ -243,6 +243,24 @@ func (g *slGen) step() {
 		} else {
 			g.add(fmt.Sprintf("%s[z+%d] = %d", name(k), i, x))
 		}
+	case c < 14 && g.h.Elem == "uint8": // append the bytes of a string (spread), also through a sub-slice into shared capacity
+		src := g.vars[j]
+		lit := core.Pick(g.r, []string{`"go"`, `"é!"`, `"日本"`, `"a\xffb"`, `""`, `"x"`})
+		str, _ := strconv.Unquote(lit)
+		fits := src.capKnown && !src.isNil && src.ln+len(str) <= src.cp
+		if len(str) > 0 && !fits && !src.isNil && !src.capKnown && (k != j || g.shared(j)) {
+			return
+		}
+		var vals []int
+		for i := 0; i < len(str); i++ {
+			vals = append(vals, int(str[i]))
+		}
+		if len(vals) == 0 {
+			g.vars[k] = src
+		} else {
+			g.vars[k] = appendModel(src, vals)
+		}
+		g.add(fmt.Sprintf("%s = append(%s, %s...)", name(k), name(j), lit))
 	case c < 19: // append values
 		src := g.vars[j]
 		nv := g.r.Range(1, 3)
